@@ -10,10 +10,10 @@ for d in sorted(glob.glob('/verif/seeded/C*')):
         summ = summ[:167].rsplit(' ', 1)[0] + ' ...'
     own = 'yes' if m.get('caught_by_own_property_check') else '**no**'
     others = [c for c in m.get('caught_by', []) if c != m.get('property')]
-    rows.append((name, m.get('property'), summ, own, ' '.join(others) or '-'))
+    rows.append((name, m.get('property'), summ, own, ' '.join(others) or ('(not run)' if m.get('caught_by_note') else '-')))
 out = []
 out.append('## 6. Seeded behaviour-breaking changes and which checks report them\n')
-out.append('''%d changes (rounds `<id>-<k>`, `<id>-r2<k>`, ... `<id>-r6<k>`), each written by an independent sub-agent that was given only the text
+out.append('''%d changes (rounds `<id>-<k>`, `<id>-r2<k>`, ... `<id>-r11<k>`), each written by an independent sub-agent that was given only the text
 of one property and a scratch worktree (nothing from /verif), each needing something
 specific to manifest (an input class, an aliasing pattern, a build configuration, a
 call order), each building and passing the whole pinned suite, each with a demonstration
@@ -70,6 +70,10 @@ served as the regression test):
 | C08-r81, C09-r82, C11-r81, C11-r82 | C08, C09, C11 | `Verify` refusing hashes that are not linked in; `Sign` refusing the RFC 6979 selector for digests other than 32 bytes; the recoverable parser masking the id byte; `Verify` no longer comparing the recovered key - each breaks a clause the property states ("verifies ... in every encoding", "for every key and digest", "ids outside [0,3] are errors", "no other id does") that only C07 / C08 / C12 decided | C08 runs `C07-3` (Verify's options and encodings), C09 runs `C08-3` (Sign hands every admissible digest and the reader on), C11 runs `C12-2` and `C07-3`; `crypto.Hash.Available` is an opaque boolean that shows up in any accept set depending on it |
 | C04-r91 | C04 | a range assertion on the GLV halves with a mis-transcribed bound: the split panics for the scalars whose half sits at its extreme; the value rules compared returning paths only | `C04-3/splitGLV/total`: no panic may be reachable in the scalar split (an assertion whose bound cannot be decided is reported as undecided - fail-closed) |
 | C18-r92 | C18 | `Point.Equal` returns 1 for `v == p` before asserting validity: the zero value is accepted when it is both operands; rule 1b cleared one operand's flag at a time with distinct objects | `C18-1b/.../all-aliased`: every exported function with two or more Point operands is run with one uninitialised object as every operand (receiver included) and must not return |
+| C20-r101 | C20 | `ParseASN1PublicKey` keeps the sub-slice of the caller's DER buffer that `BitString.RightAlign()` returns as the key's cached encoding; C10 / C12 / C18 reported it (constructor value rules), C20 did not: "no write to shared memory" says nothing about memory the *caller* may write | rule `C20-4/owns/*`: everything reachable from a result of the API is freshly allocated (deep return-alias and retention summaries in the effect engine; `cryptobyte.String.Read*` outputs point into the input) |
+| C06-r101 | C06 (and every other check) | the encoders return one package-level `[]byte{0}` for the identity: every caller shares it, a write by one changes the encoding of the identity for all | `C20-4` (a result must not be package-level memory), evaluated by every check as part of its bottom layer |
+| C10-r101 | C10 | the identity test moved out of `newPublicKeyFromPoint` while `ParseASN1PublicKey` started to call it directly: an SPKI wrapping `00` yields a key holding infinity; only C12 decided that parser | `C12-5` is also evaluated by C10 and C18 (the parser is a constructor of key objects) |
+| (sweep) `(*[32]byte)(src[33:64])`, `src[1:34]` | C06, C12, C13 | found by the AST mutation sweep (`scripts/mutsweep.py`), killed by the tests but silent in every check: a slice-to-array conversion of a too short slice and a slice bound beyond the tested length were *events* nobody read | a constant out-of-range access is a reachable panic of the run (every "no panic" rule decides it); rule `index-safety` (bounds checks discharged from the path condition by Fourier-Motzkin, capacity >= length only) now also for the SEC 1 decoders, `VerifyRaw`, `Verify`, `sign`, `Sign`, ECDH, the key constructors, `RecoverPublicKey`, `signSchnorr`, the hash-to-curve drivers |
 | C19-r22 | C19 (after the relevance filter was added) | reachability was computed in the amd64 configuration only; the portable lookup is the only caller that passes non-0/1 values to `Uint64Equal` | relevance is the union over every loaded build configuration |
 ''')
 s = open('/verif/DESIGN.md').read()
